@@ -723,6 +723,13 @@ def f_fail(kind="fail"):
         }
     if kind == "plan_fails":
         return {"plan.py": script([tr("I", [], ["i.txt"]), ["exit", 3]])}
+    if kind == "many_missing":
+        # more dead-end inputs than the summary displays or ranks exactly: 25 independent steps,
+        # each waiting for its own input that nothing declares
+        return {"plan.py": script([tr(f"M{i:02d}", [f"nowhere{i:02d}.txt"], [f"m{i:02d}.txt"]) for i in range(25)])}
+    if kind == "many_resources":
+        return {"plan.py": script([tr(f"R{i:02d}", [], [f"r{i:02d}.txt"], resources={f"res{i:02d}": 1})
+                                   for i in range(25)])}
     if kind in ("globprod1", "globprod2"):
         # build 1 (globprod1): a.txt is static and a sub-plan globs *.txt; build 2 (globprod2): a.txt
         # becomes the output of a step declared before the (unchanged, recycled, skipped) sub-plan,
